@@ -46,14 +46,15 @@ OVERLAY = [None]
 
 
 class Contract:
-    def __init__(self, path):
+    def __init__(self, path, overlay_only=False):
         self.path = path
         self.sections = {}      # name -> list of (lineno, text[, file])
         self.order = []
         self.expect_loops = None
         self.loopnames = {}
         self.opts = {}
-        self._read(path, None)
+        if not overlay_only:
+            self._read(path, None)
         if OVERLAY[0] and path.endswith('.vc'):
             opath = path[:-3] + '+' + OVERLAY[0] + '.vc'
             if os.path.exists(opath):
@@ -135,6 +136,10 @@ class Contract:
                     self.opts[k.strip()] = v.strip()
                     cur = None
                     continue
+                if ofile is not None and cur.endswith(' first') and cur[:-6] in self.sections:
+                    # overlay section `[NAME first]`: its lines go BEFORE the base's lines of section NAME
+                    pending.setdefault(cur, [])
+                    continue
                 if ofile is not None and cur in self.sections:
                     pending.setdefault(cur, [])
                     continue
@@ -150,7 +155,10 @@ class Contract:
             else:
                 self.sections[cur].append((ln, line))
         for name, lines in pending.items():
-            self._merge(name, lines)
+            if name.endswith(' first') and name not in self.sections:
+                self.sections[name[:-6]][0:0] = lines
+            else:
+                self._merge(name, lines)
 
     def get(self, name):
         return self.sections.get(name)
@@ -402,7 +410,12 @@ class FnEmitter:
         base_line = lineno(src, item.start)
         toks = lex(text)
         cpath = contract_path(self.srcfile, self.fnpath)
-        con = Contract(cpath if not self.nocontract else cpath + '.none')
+        if self.nocontract == 'overlay':
+            # unit directive `stub-overlay`: the callee is seen through the clauses of the unit's overlay contract only
+            # (its base contract speaks a vocabulary the unit does not include)
+            con = Contract(cpath, overlay_only=True)
+        else:
+            con = Contract(cpath if not self.nocontract else cpath + '.none')
         key = '%s::%s' % (self.srcfile, self.fnpath)
         rel_c = os.path.relpath(cpath, VERIF)
 
@@ -1491,6 +1504,9 @@ def build(unit, repo_root, diff=False, canary=False, extra_stubs=()):
             FnEmitter(repo, parts[1], parts[2], 'stub', counts, info, canary=canary, heap_fns=heap_fns, nocontract=True).emit(out)
             info['functions'][-1]['mode'] = 'abstract'
             info.setdefault('abstract', []).append('%s::%s' % (parts[1], parts[2]))
+        elif cmd == 'stub-overlay':
+            FnEmitter(repo, parts[1], parts[2], 'stub', counts, info, canary=canary, heap_fns=heap_fns, nocontract='overlay').emit(out)
+            info.setdefault('stub_overlay', []).append('%s::%s' % (parts[1], parts[2]))
         elif cmd in ('prove', 'stub', 'prove?', 'stub?'):
             # a trailing '?' marks a function that may be absent (e.g. a helper introduced by a repair)
             try:
